@@ -134,6 +134,18 @@ def main():
         for j, toks in enumerate(seeds):
             with open(os.path.join(corpus, f"seed{j}"), "wb") as f:
                 f.write(bytes([1, 0] + [TOKENS.index(t) for t in toks]))
+        # libFuzzer dictionary of token n-grams (each entry is inserted / overwritten as a unit): statement skeletons
+        # and directive fragments, so that a mutation can add a whole construct instead of one token
+        grams = [["def", "f", "(", "a", ")", ":", I1], ["while", "True", ":", I1], ["if", "a", ">", "1", ":", I2], ["else", ":", I2], ["return", "a"],
+                 ["for", "i", "in", "range", "(", "3", ")", ":", I1], ["for", "x", "in", "[", "1", ",", "2", "]", ":", I1], ["f", "(", "1", ")", "\n"],
+                 ["db", ".", "Setting", "="], ["d0", ".", "Setting"], ["=", "f", "(", "d0", ".", "On", ")"], ["@", "constexpr", "\n"], ["global", "x", I1],
+                 ["break", "\n"], ["continue", "\n"], ["# pytrapic:", "compact,"], ["# pytrapic:", "no-"], ["no-", "\n"], ["no-", "inline_functions", "\n"],
+                 ["# pytrapic:", "tail_call_optimization", "\n"], ["from", "library", "import", "m", "\n"], ["stack", "[", "i", "]"], ["tbl", "[", "d0", ".", "Mode", "]"]]
+        dpath = os.path.join(outdir, "tokens.dict")
+        with open(dpath, "w") as f:
+            for g in grams:
+                f.write('"' + "".join("\\x%02x" % TOKENS.index(t) for t in g) + '"\n')
+        argv.append("-dict=" + dpath)
         atheris.Setup(argv, one_tokens)
     else:
         from hypothesis import HealthCheck, given, settings
